@@ -55,6 +55,7 @@ type Exec struct {
 	mu        sync.Mutex
 	stats     map[string]int
 	vec       vecState
+	frozen    string
 }
 
 func newExec(dir string) *Exec {
@@ -263,6 +264,36 @@ func (e *Exec) safeExec(c *Cmd, sl *slots, gsuffix string) (obs string, ok bool)
 }
 
 func (e *Exec) exec(c *Cmd, sl *slots, gsuffix string) (string, bool) {
+	if e.frozen != "" {
+		switch c.Op {
+		case "build", "merge", "writeto", "cmpfile":
+			// written by the pinned release: echo what it recorded
+			return strings.TrimPrefix(c.Rec, "r "), c.Rec != ""
+		case "persist":
+			p := filepath.Join(e.frozen, c.Pos[1]+".zap")
+			e.mu.Lock()
+			e.files[c.Pos[1]] = p
+			e.mu.Unlock()
+			st, err := os.Stat(p)
+			if err != nil {
+				return "err:missing-frozen-file", true
+			}
+			return fmt.Sprintf("ok size=%d", st.Size()), true
+		case "rmfile":
+			return "", false
+		}
+		if c.Op == "open" || c.Op == "footer" || c.Op == "dumpfile" {
+			name := c.Pos[len(c.Pos)-1]
+			if c.Op != "open" {
+				name = c.Pos[0]
+			}
+			e.mu.Lock()
+			if _, ok := e.files[name]; !ok {
+				e.files[name] = filepath.Join(e.frozen, name+".zap")
+			}
+			e.mu.Unlock()
+		}
+	}
 	switch c.Op {
 	case "cfg":
 		if v, ok := c.KV["chunkmode"]; ok {
